@@ -112,9 +112,15 @@ impl Pattern {
     fn has_greedy_all(hir: &Hir) -> bool {
         match hir.kind() {
             HirKind::Repetition(repetition) => {
+                // Look through groups and through repetitions nested directly inside:
+                // `(?:.{1,5})*` repeats a dot without an upper bound just as `.*` does.
                 let mut sub = &*repetition.sub;
-                while let HirKind::Capture(capture) = sub.kind() {
-                    sub = &capture.sub;
+                loop {
+                    match sub.kind() {
+                        HirKind::Capture(capture) => sub = &capture.sub,
+                        HirKind::Repetition(inner) => sub = &inner.sub,
+                        _ => break,
+                    }
                 }
                 let is_dot = DOT_HIRS.contains(sub);
                 let is_unbounded = repetition.max.is_none();
